@@ -1,4 +1,5 @@
 import TxV.Model.BasicFifo
+import TxV.Model.BufferedFifo
 open TxV TxV.Proto TxV.BasicFifo TxV.QueueUtil
 
 /-- driver state: which class, depth, model state of each class -/
@@ -7,12 +8,14 @@ structure DState where
   depth : Nat
   basic : State
   queue : List Nat
+  buf : TxV.BufferedFifo.State := TxV.BufferedFifo.init
   ow : List Nat := []
   or : List Nat := []
 
 /-- protocol:
     `cfg cls=basic depth=5 w=8` → `ok`      (BasicFifo)
     `cfg cls=fifo depth=5 w=8`  → `ok`      (connectors.FIFO over SyncFIFO)
+    `cfg cls=fifobuf depth=5 w=8` → `ok`    (connectors.FIFO over SyncFIFOBuffered; same line formats as `fifo`)
     `cfg cls=basic depth=0 …`   → `raise AssertionError`, every following `cyc` line → `-`
     `cyc w=17 r=1 p=0 c=0` (absent write: `w=-`) →
        basic: `w=1 r=42 p=- c=0 rdy=1 lvl=2 ri=0 wi=2 head=42`   (rdy = peek.ready = allocator.free.ready;
@@ -29,6 +32,7 @@ def stepLine (s : DState) (line : String) : DState × String :=
       if d == 0 then ({ s with cls := "raised" }, "raise AssertionError")
       else ({ cls := "basic", depth := d, basic := init d, queue := [], ow := natListOf t "pw", or := natListOf t "pr" }, "ok")
     | some "fifo", some d => ({ cls := "fifo", depth := d, basic := init d, queue := [], ow := natListOf t "pw", or := natListOf t "pr" }, "ok")
+    | some "fifobuf", some d => ({ cls := "fifobuf", depth := d, basic := init d, queue := [], ow := natListOf t "pw", or := natListOf t "pr" }, "ok")
     | _, _ => ({ s with cls := "" }, "bad-op")
   | some "cyc" =>
     match kv? t "w", nat? t "r" with
@@ -48,6 +52,9 @@ def stepLine (s : DState) (line : String) : DState × String :=
         else if s.cls == "fifo" then
           let (q', o) := specStep s.depth s.queue (fifoIn w (r == 1))
           ({ s with queue := q' }, s!"w={showBool o.wr.isSome} r={showOpt o.rd} rdy={showBool o.rrdy}{showBool o.wrdy}")
+        else if s.cls == "fifobuf" then
+          let (b', o) := TxV.BufferedFifo.step s.depth s.buf ⟨w, r == 1⟩
+          ({ s with buf := b' }, s!"w={showBool o.wr.isSome} r={showOpt o.rd} rdy={showBool o.rrdy}{showBool o.wrdy}")
         else if s.cls == "raised" then (s, "-")
         else (s, "bad-op")
     | _, _ => (s, "bad-op")
@@ -68,6 +75,13 @@ def stepLine (s : DState) (line : String) : DState × String :=
         let e := eff s.ow s.or mi
         let (q', o) := specStep s.depth s.queue (fifoIn e.w e.r)
         ({ s with queue := q' }, s!"{MProto.showM mi e o.wr o.rd o.pk o.clr false} rdy={showBool o.rrdy}{showBool o.wrdy}")
+    else if s.cls == "fifobuf" then
+      match MProto.parseMIn t false with
+      | none => (s, "bad-op")
+      | some mi =>
+        let e := eff s.ow s.or mi
+        let (b', o) := TxV.BufferedFifo.step s.depth s.buf ⟨e.w, e.r⟩
+        ({ s with buf := b' }, s!"{MProto.showM mi e o.wr o.rd none false false} rdy={showBool o.rrdy}{showBool o.wrdy}")
     else (s, "bad-op")
   | _ => (s, "bad-op")
 
